@@ -749,6 +749,9 @@ pub fn burst(case: &crate::prog::Burst, ctx: &mut CaseCtx) -> Result<(), Fail> {
         let mut w = World::new(max)?;
         let t0 = now_s();
         let mut ok = true;
+        // every other burst rolls back to its oldest checkpoint once the limit is reached: a
+        // rollback carries the checkpoint records across the restore and must keep their order
+        let with_rollback = case.extra % 2 == 1 && max >= 2;
         for i in 1..=total {
             let _ = w.exec(&format!("EMBED STORE 'e{}' [1.00, {i}.00, 0.00]", i % 6));
             match w.exec(&format!("CHECKPOINT 'cp{i}'")) {
@@ -759,6 +762,16 @@ pub fn burst(case: &crate::prog::Burst, ctx: &mut CaseCtx) -> Result<(), Fail> {
                     break;
                 },
             }
+            if with_rollback && i == max {
+                if let Err(e) = w.exec("ROLLBACK TO 'cp1'") {
+                    ctx.fail("rollback-refused:burst", format!("ROLLBACK TO 'cp1' with cp1..cp{max} retained (limit {max}): {e}"))?;
+                    ok = false;
+                    break;
+                }
+            }
+        }
+        if with_rollback {
+            ctx.label("burst with a rollback in the middle");
         }
         if !ok {
             return Ok(());
@@ -784,9 +797,10 @@ pub fn burst(case: &crate::prog::Burst, ctx: &mut CaseCtx) -> Result<(), Fail> {
             ctx.set_nontrivial();
             ctx.label("burst:wrong-eviction-seen");
             ctx.fail(
-                "retention:same-second:newer-checkpoint-evicted",
+                if with_rollback { "retention:same-second:newer-checkpoint-evicted:after-rollback" } else { "retention:same-second:newer-checkpoint-evicted" },
                 format!(
-                    "{total} checkpoints cp1..cp{total} created back to back within one second with limit {max}: CHECKPOINTS lists {names:?}, the newest {max} are {want:?} (creation seconds reported: {:?})",
+                    "{total} checkpoints cp1..cp{total} created back to back within one second with limit {max}{}: CHECKPOINTS lists {names:?}, the newest {max} are {want:?} (creation seconds reported: {:?})",
+                    if with_rollback { " (and a rollback to cp1 once the limit was reached)" } else { "" },
                     listed.iter().map(|c| c.1).collect::<Vec<_>>()
                 ),
             )?;
